@@ -144,6 +144,10 @@ def gen_line(rng, rich):
     return s
 
 
+os.environ["VERIF_W2_YEAR"] = "2024"          # part of the simulated collector's environment (see glob_file names)
+os.environ.pop("VERIF_W2_UNSET", None)
+
+
 def gen_content(rng, rich, tag):
     if rich and rng.random() < 0.012:
         # very many lines (a log): more than any block / batch size a writer might use, with empty lines sitting on
@@ -273,6 +277,10 @@ def gen_case(st, tier, flavour):
             d = rp.choice(["etc/conf.d", "etc/yum.repos.d"])
             for n in rp.sample(["a", "b", "c", "d"], rp.randint(0, 3)):
                 add_file("%s/%s.conf" % (d, n))
+            if flavour == "C06" and rp.random() < 0.15:
+                # discovered names are taken literally: a '$NAME' in one of them is part of the name, whatever the
+                # collector's environment holds (VERIF_W2_YEAR is set in the worker's environment, VERIF_W2_UNSET is not)
+                add_file("%s/%s.conf" % (d, rp.choice(["u$VERIF_W2_YEAR", "v${VERIF_W2_YEAR}x", "w$VERIF_W2_UNSET", "$VERIF_W2_YEAR", "q%s~"])))
             sp["patterns"] = ["/%s/*.conf" % d]
             if flavour == "C06" and rp.random() < 0.35:
                 links.append({"path": "%s/zlnk.conf" % d, "target": "../../../" + rp.choice([sib, "outside"]) + "/secret"})
